@@ -236,6 +236,60 @@ func predCmpsExact(fn *ssa.Function) ([]Cmp, bool) {
 	return cmps, ifs == len(cmps)-1
 }
 
+// predPaths: for a small loop-free function with one boolean result, the branch facts along every path that ends
+// in "true" and along every path that ends in "false" (a computed result contributes itself as the last fact).
+func predPaths(fn *ssa.Function) (truePaths, falsePaths [][]Fact, ok bool) {
+	if fn == nil || fn.Blocks == nil || fn.Signature.Results().Len() != 1 || hasLoop(fn) {
+		return nil, nil, false
+	}
+	n := 0
+	good := true
+	var walk func(b, pred *ssa.BasicBlock, facts []Fact)
+	walk = func(b, pred *ssa.BasicBlock, facts []Fact) {
+		n++
+		if n > 64 {
+			good = false
+			return
+		}
+		last := b.Instrs[len(b.Instrs)-1]
+		switch x := last.(type) {
+		case *ssa.If:
+			for i, sc := range b.Succs {
+				walk(sc, b, append(append([]Fact(nil), facts...), Fact{x.Cond, i == 0}))
+			}
+		case *ssa.Jump:
+			walk(b.Succs[0], b, facts)
+		case *ssa.Return:
+			if len(x.Results) != 1 {
+				good = false
+				return
+			}
+			v := x.Results[0]
+			if ph, isPhi := v.(*ssa.Phi); isPhi && ph.Block() == b {
+				for j, p := range b.Preds {
+					if p == pred {
+						v = ph.Edges[j]
+					}
+				}
+			}
+			if k, isK := v.(*ssa.Const); isK && k.Value != nil {
+				if k.Value.String() == "true" {
+					truePaths = append(truePaths, facts)
+				} else {
+					falsePaths = append(falsePaths, facts)
+				}
+				return
+			}
+			truePaths = append(truePaths, append(append([]Fact(nil), facts...), Fact{v, true}))
+			falsePaths = append(falsePaths, append(append([]Fact(nil), facts...), Fact{v, false}))
+		default:
+			// panic and the like: no result
+		}
+	}
+	walk(fn.Blocks[0], nil, nil)
+	return truePaths, falsePaths, good && len(truePaths)+len(falsePaths) > 0
+}
+
 // predCmps: comparisons that hold whenever the bool-returning function returns true.
 func predCmps(fn *ssa.Function) []Cmp {
 	if fn == nil || fn.Blocks == nil {
@@ -539,6 +593,52 @@ func (m *counterModel) analyse(fn *ssa.Function, entry ival) (ival, string) {
 				// a predicate method of the counter itself (`for c.isFull() {…}`): its comparisons hold on the true
 				// edge; on the false edge one of them fails (only when they are exactly the predicate)
 				if h := m.recvHelper(call, fn); h != nil {
+					// a loop-free predicate: every path to "true" (or to "false") is a conjunction of branch facts;
+					// the refinement is the join over the paths of the meet of their facts
+					if tp, fp, ok := predPaths(h); ok {
+						paths := fp
+						if f.Truth {
+							paths = tp
+						}
+						r := ival{bot: true}
+						for _, p := range paths {
+							s2 := s
+							for _, pf := range p {
+								for _, g := range expandFact(pf) {
+									switch y := g.Cond.(type) {
+									case *ssa.BinOp:
+										op := y.Op
+										if !g.Truth {
+											op = negOp(op)
+										}
+										if op != token.ILLEGAL {
+											s2 = refineCmp(Cmp{y.X, y.Y, op}, s2)
+										}
+									case *ssa.Call:
+										if cal := staticCallee(&y.Call); cal != nil && cal.Name() == "IsEmpty" && len(y.Call.Args) > 0 && m.isBufRecv(y.Call.Args[0]) && g.Truth {
+											s2.hi = min(s2.hi, -1)
+										}
+									}
+								}
+							}
+							if s2.lo > s2.hi {
+								continue
+							}
+							if r.bot {
+								r = s2
+							} else {
+								m0 := r.mem
+								r = r.join(s2)
+								r.mem = m0
+							}
+						}
+						if r.bot {
+							s.lo, s.hi = posInf, negInf
+							return s
+						}
+						r.mem = s.mem
+						return r
+					}
 					cmps, exact := predCmpsExact(h)
 					if f.Truth {
 						for _, hc := range cmps {
